@@ -509,8 +509,15 @@ func (s *sim) opEntrance() {
 	switch a.status {
 	case fvFound:
 		f, vrv := s.factsFor(a.view)
-		if s.model.a15(f) && s.excluded(fidA15) {
-			return
+		if s.model.a15(f) {
+			if s.excluded(fidA15) {
+				return
+			}
+			if vi := s.w.valsAt(f.H); vi.maj(f.PrecTot) {
+				s.labels["entered-in-precommit-delay-situation"] = true
+			} else {
+				s.labels["entered-in-prevote-delay-situation"] = true
+			}
 		}
 		if f.PrecMajTarget && !f.PrecMajNil && !f.allPH[f.PrecBestHash] && vk.Excluded(fidF1) {
 			s.st.Excluded(fidF1)
@@ -1169,6 +1176,10 @@ func (s *sim) outstandingKind() int {
 // opNetRound: the network runs an honest round on the voting view: proposal k
 // visible, the other validators prevote and precommit it (or nil when a is 0).
 func (s *sim) opNetRound(a, b int) {
+	if a%6 == 5 {
+		s.opNetSplit(b)
+		return
+	}
 	tgt := 0
 	if a%6 != 0 {
 		tgt = 1 + b%smMaxCands
@@ -1178,6 +1189,50 @@ func (s *sim) opNetRound(a, b int) {
 	s.opNetQuorum(0, tgt)
 	if s.mm.voting == v {
 		s.opNetQuorum(1, tgt)
+	}
+}
+
+// opNetSplit: the other validators split their prevotes (b even) or precommits (b odd)
+// between nil and a block until a majority of the power has voted without a majority
+// target: the delay situations. (b>>1)&1 selects the voting or the next-round view.
+func (s *sim) opNetSplit(b int) {
+	precommit := b&1 == 1
+	id := (b >> 1) & 1
+	v := s.mm.view(id)
+	if v == nil {
+		s.skip("net-no-view")
+		return
+	}
+	vi := s.w.valsAt(v.H)
+	block := s.candFor(v.H, v.R, 0).hash
+	n := 0
+	for pos := range vi.idx {
+		if pos == vi.self {
+			continue
+		}
+		if s.mm.view(id) != v {
+			if s.mm.voting != v {
+				break // the view was committed or dropped
+			}
+			id = vidVoting // a minority in the next round made the mirror jump: same view, now the voting one
+		}
+		if vi.maj(vi.power(v.voted(precommit))) {
+			break
+		}
+		tgt := ""
+		if n%2 == 1 {
+			tgt = block
+		}
+		n++
+		h, r, ok := s.smPos()
+		if why := s.mm.addVote(precommit, id, tgt, pos, h, r, ok, s.pendingEnt != nil); why != "" {
+			if why != "already-voted" {
+				s.skip("net-vote-" + why)
+				break
+			}
+		} else {
+			s.w.ev("net-vote", v.H, v.R, fmt.Sprintf("precommit=%v %s by %d -> %s", precommit, short(tgt), pos, s.mm.pos()), nil, nil)
+		}
 	}
 }
 
